@@ -1,5 +1,6 @@
 import Slu.Model.IluDrop
 import Mathlib.Tactic.Linarith
+import Mathlib.Algebra.Order.Field.Rat
 /-
 C15 — lemmas about the row-dropping model `Slu.IluDrop` (Slu/Model/IluDrop.lean): the loop invariant of the two
 dropping loops of `ilu_[sd]drop_row`, valid for EVERY scalar instance `DropOps` (Float, Float32, Rat).
@@ -49,13 +50,14 @@ structure Inv (ops : DropOps K R T) (milu : Milu) (m n : Nat) (rows0 : Array (Ar
   /-- the k-th dropped row (in time order) sits at position `m-1-k` of the ghost map -/
   gone : ∀ k, k < s.r → (s.trace.reverse[k]!).1 = s.orig[m - 1 - k]!
   acc : 0 < s.r → s.rows[m - 1]! = accOf ops milu (s.trace.reverse.map fun e => rows0[e.1]!)
+  olt : ∀ p, p < m → s.orig[p]! < m
 
 theorem inv_init (ops : DropOps K R T) (milu : Milu) (m n : Nat) (hnm : n < m) (rows0 : Array (Array K)) (subs0 : Array Int)
     (hr : rows0.size = m) (hs : subs0.size = m) (temp : Array R) (a b : R) :
     Inv ops milu m n rows0 subs0 { rows := rows0, subs := subs0, temp := temp, m1 := m - 1, r := 0, dmax := a, dmin := b, orig := Array.range m } := by
   have hg : ∀ p, p < m → (Array.range m)[p]! = p := by
     intro p hp; simp [getElem!_def, hp]
-  refine ⟨hr, hs, by simp, by simp; omega, rfl, by simp; omega, ?_, ?_, ?_, ?_, ?_⟩
+  refine ⟨hr, hs, by simp, by simp; omega, rfl, by simp; omega, ?_, ?_, ?_, ?_, ?_, fun p hp => by rw [hg p hp]; exact hp⟩
   · intro p hp
     have : p < m := by simp at hp; omega
     simp [hg p this, this]
@@ -148,7 +150,7 @@ theorem dropAt_rows_last (ops : DropOps K R T) (milu : Milu) (m : Nat) (s : DSt 
 theorem dropAt_inv (ops : DropOps K R T) (milu : Milu) (m n : Nat) (rows0 : Array (Array K)) (subs0 : Array Int)
     (s : DSt K R) (i : Nat) (c : R) (h : Inv ops milu m n rows0 subs0 s) (hn : 1 ≤ n) (hi1 : n ≤ i) (hi2 : i ≤ s.m1) :
     Inv ops milu m n rows0 subs0 (dropAt ops milu m s i c) := by
-  obtain ⟨rsize, ssize, osize, cnt, tlen, n_le, kept, diag, inj, gone, acc⟩ := h
+  obtain ⟨rsize, ssize, osize, cnt, tlen, n_le, kept, diag, inj, gone, acc, olt⟩ := h
   have hm1 : s.m1 < m := by omega
   have horig := dropAt_orig ops milu m s i c osize (by omega) hm1
   have hrows := dropAt_rows_lt ops milu m s i c rsize cnt hi2
@@ -158,7 +160,7 @@ theorem dropAt_inv (ops : DropOps K R T) (milu : Milu) (m n : Nat) (rows0 : Arra
     by_cases h2 : p = i
     · rw [if_pos h2, h2, get!_set_eq _ _ _ (by omega)]
     · rw [if_neg h2, get!_set_ne _ _ _ _ (fun e => h2 e.symm)]
-  refine ⟨?_, ?_, ?_, ?_, ?_, ?_, ?_, ?_, ?_, ?_, ?_⟩
+  refine ⟨?_, ?_, ?_, ?_, ?_, ?_, ?_, ?_, ?_, ?_, ?_, ?_⟩
   · rw [dropAt_rows_size, rsize]
   · simp [dropAt, ssize]
   · simp [dropAt, osize]
@@ -220,6 +222,9 @@ theorem dropAt_inv (ops : DropOps K R T) (milu : Milu) (m n : Nat) (rows0 : Arra
       have ht : s.trace = [] := List.eq_nil_of_length_eq_zero (by rw [tlen, hr0])
       rw [if_neg hr, ht]
       simp [accOf]
+  · intro p hp
+    rw [horig p]
+    exact olt _ (by unfold swp; split_ifs <;> omega)
 
 
 /-! ### the two loops -/
@@ -229,8 +234,8 @@ theorem Inv.congr {ops : DropOps K R T} {milu : Milu} {m n : Nat} {rows0 : Array
     {s s' : DSt K R} (h : Inv ops milu m n rows0 subs0 s) (h1 : s'.rows = s.rows) (h2 : s'.subs = s.subs)
     (h3 : s'.m1 = s.m1) (h4 : s'.r = s.r) (h5 : s'.trace = s.trace) (h6 : s'.orig = s.orig) :
     Inv ops milu m n rows0 subs0 s' := by
-  obtain ⟨a1, a2, a3, a4, a5, a6, a7, a8, a9, a10, a11⟩ := h
-  refine ⟨?_, ?_, ?_, ?_, ?_, ?_, ?_, ?_, ?_, ?_, ?_⟩ <;> simp only [h1, h2, h3, h4, h5, h6] <;> assumption
+  obtain ⟨a1, a2, a3, a4, a5, a6, a7, a8, a9, a10, a11, a12⟩ := h
+  refine ⟨?_, ?_, ?_, ?_, ?_, ?_, ?_, ?_, ?_, ?_, ?_, ?_⟩ <;> simp only [h1, h2, h3, h4, h5, h6] <;> assumption
 
 /-- what is recorded for a row dropped by the first loop: its own norm, below `drop_tol` (strictly) -/
 def Q1 (ops : DropOps K R T) (nrm : Nrm) (dropTol : T) (rows0 : Array (Array K)) (e : Nat × R) : Prop :=
@@ -440,5 +445,79 @@ theorem trace_not_kept {ops : DropOps K R T} {milu : Milu} {m n : Nat} {rows0 : 
   by_contra hlt
   have hlt : e.1 < n := by omega
   exact hnk e.1 (by omega) (h.diag e.1 hlt)
+
+/-! ### the accumulator over `Rat` -/
+
+theorem zipWith_get! {α} [Inhabited α] (f : α → α → α) (a b : Array α) (j : Nat) (ha : j < a.size) (hb : j < b.size) :
+    (Array.zipWith f a b)[j]! = f a[j]! b[j]! := by
+  rw [getElem!_pos _ j (by simp; omega), Array.getElem_zipWith, getElem!_pos a j ha, getElem!_pos b j hb]
+
+/-- the signed / absolute column sums accumulated by `accStep` over `Rat` -/
+theorem foldl_accStep_rat (nrm2 : Array Rat → Rat) (milu : Milu) (n j : Nat) (hj : j < n) :
+    ∀ (xs : List (Array Rat)) (acc : Array Rat), acc.size = n → (∀ x ∈ xs, x.size = n) →
+      (xs.foldl (accStep (opsRat nrm2) milu) acc).size = n ∧
+      (xs.foldl (accStep (opsRat nrm2) milu) acc)[j]! =
+        match milu with
+        | .smilu1 | .smilu2 => acc[j]! + (xs.map fun x => x[j]!).sum
+        | .smilu3 => acc[j]! + (xs.map fun x => rabs x[j]!).sum
+        | .silu => acc[j]! := by
+  intro xs
+  induction xs with
+  | nil => intro acc h _; cases milu <;> simp [h]
+  | cons x xs ih =>
+    intro acc h hx
+    have hxs : x.size = n := hx x (List.mem_cons_self)
+    have hrest : ∀ y ∈ xs, y.size = n := fun y hy => hx y (List.mem_cons_of_mem _ hy)
+    rw [List.foldl_cons]
+    cases milu
+    · simpa [accStep] using ih acc h hrest
+    · have hs : (accStep (opsRat nrm2) .smilu1 acc x).size = n := by simp [accStep, h, hxs]
+      obtain ⟨a, b⟩ := ih _ hs hrest
+      refine ⟨a, ?_⟩
+      rw [b]; simp only [accStep, List.map_cons, List.sum_cons]
+      rw [zipWith_get! _ _ _ _ (by omega) (by omega)]; simp only [opsRat]; rw [add_assoc]
+    · have hs : (accStep (opsRat nrm2) .smilu2 acc x).size = n := by simp [accStep, h, hxs]
+      obtain ⟨a, b⟩ := ih _ hs hrest
+      refine ⟨a, ?_⟩
+      rw [b]; simp only [accStep, List.map_cons, List.sum_cons]
+      rw [zipWith_get! _ _ _ _ (by omega) (by omega)]; simp only [opsRat]; rw [add_assoc]
+    · have hs : (accStep (opsRat nrm2) .smilu3 acc x).size = n := by simp [accStep, h, hxs]
+      obtain ⟨a, b⟩ := ih _ hs hrest
+      refine ⟨a, ?_⟩
+      rw [b]; simp only [accStep, List.map_cons, List.sum_cons]
+      rw [zipWith_get! _ _ _ _ (by omega) (by omega)]; simp only [opsRat]; rw [add_assoc]
+
+/-- **the MILU accumulator over `Rat`, per column**: SMILU_1/2 the signed sum of the dropped entries, SMILU_3 the sum
+of their moduli, SILU the first dropped row (never used) -/
+theorem accOf_rat (nrm2 : Array Rat → Rat) (milu : Milu) (n j : Nat) (hj : j < n) (x : Array Rat) (xs : List (Array Rat))
+    (hx : ∀ y ∈ x :: xs, y.size = n) :
+    (accOf (opsRat nrm2) milu (x :: xs))[j]! =
+      match milu with
+      | .smilu1 | .smilu2 => ((x :: xs).map fun y => y[j]!).sum
+      | .smilu3 => ((x :: xs).map fun y => rabs y[j]!).sum
+      | .silu => x[j]! := by
+  have hxs : x.size = n := hx x (List.mem_cons_self)
+  have hrest : ∀ y ∈ xs, y.size = n := fun y hy => hx y (List.mem_cons_of_mem _ hy)
+  unfold accOf
+  cases milu
+  · simp only [show (Milu.silu == Milu.smilu3) = false from rfl, Bool.false_eq_true, if_false]
+    simpa using (foldl_accStep_rat nrm2 .silu n j hj xs x hxs hrest).2
+  · simp only [show (Milu.smilu1 == Milu.smilu3) = false from rfl, Bool.false_eq_true, if_false]
+    simpa using (foldl_accStep_rat nrm2 .smilu1 n j hj xs x hxs hrest).2
+  · simp only [show (Milu.smilu2 == Milu.smilu3) = false from rfl, Bool.false_eq_true, if_false]
+    simpa using (foldl_accStep_rat nrm2 .smilu2 n j hj xs x hxs hrest).2
+  · have h3 : (Milu.smilu3 == Milu.smilu3) = true := rfl
+    simp only [h3, if_true]
+    have := (foldl_accStep_rat nrm2 .smilu3 n j hj xs (x.map (opsRat nrm2).absK) (by simp [hxs]) hrest).2
+    simp only at this
+    rw [this]
+    have : (x.map (opsRat nrm2).absK)[j]! = rabs x[j]! := by
+      rw [getElem!_pos _ j (by simp; omega), Array.getElem_map, getElem!_pos x j (by omega)]; rfl
+    rw [this]; simp
+
+theorem trace_lt {ops : DropOps K R T} {milu : Milu} {m n : Nat} {rows0 : Array (Array K)} {subs0 : Array Int} {s : DSt K R}
+    (h : Inv ops milu m n rows0 subs0 s) (e : Nat × R) (he : e ∈ s.trace) : e.1 < m := by
+  obtain ⟨k, hk, hke⟩ := trace_mem_pos h e he
+  rw [hke]; exact h.olt _ (by have := h.cnt; omega)
 
 end Slu.IluDrop
